@@ -124,7 +124,7 @@ inductive ARule where
   | style (sels : List (List Tok)) (items : List AItem)
   /-- an unknown at-rule, kept token by token -/
   | unknown (toks : List Tok)
-  /-- media query list (opaque tokens), optional name, nested rules.  `@media` whose parse failed is
+  /-- media query list (opaque tokens), optional name (an empty one is no name), nested rules.  `@media` whose parse failed is
   `media [] none []` (the DOM has the constructor's `all` and no rules) -/
   | media (mq : List Tok) (name : Option Cps) (rules : List ARule)
   | fontface (items : List AItem)
@@ -200,6 +200,10 @@ def SHref.value : SHref → Cps
   | .str _ h => h
   | .url _ _ _ _ h => h
 
+/-- the optional name of `@media` / `@import` (`cssmediarule.py:117-130`, `cssimportrule.py:137-151`): a STRING
+and the gap after it -/
+abbrev SName := Option (Quote × Cps × Gap)
+
 /-- an item of the block of `@page`: a block item or a margin box `@name gap { block }` -/
 inductive SPageItem where
   | item (i : SItem)
@@ -227,8 +231,8 @@ inductive SRule where
   | comment (body : Cps)
   | style (sel : SSel) (block : SBlock)
   | unknown (toks : List Tok)
-  /-- `@media g1 mq g2 { lead rules }` -/
-  | media (kw : Mask) (g1 : Gap) (mq : List Tok) (g2 : Gap) (lead : WGap) (rules : SRules)
+  /-- `@media g1 mq g2 ["name" g3] { lead rules }` -/
+  | media (kw : Mask) (g1 : Gap) (mq : List Tok) (g2 : Gap) (name : SName) (lead : WGap) (rules : SRules)
   /-- `@font-face g1 { block }` -/
   | fontface (kw : Mask) (g1 : Gap) (block : SBlock)
   /-- `@page g0 sel g1 { block }` -/
@@ -243,8 +247,8 @@ end
 inductive SImp where
   | comment (body : Cps)
   | unknown (toks : List Tok)
-  /-- `@import g1 href g2 [mq g3] ;` -/
-  | import_ (kw : Mask) (g1 : Gap) (href : SHref) (g2 : Gap) (mq : Option (List Tok × Gap))
+  /-- `@import g1 href g2 [mq g3] ["name" g4] ;` -/
+  | import_ (kw : Mask) (g1 : Gap) (href : SHref) (g2 : Gap) (mq : Option (List Tok × Gap)) (name : SName)
   deriving Repr
 
 /-- a statement of the `@namespace` section -/
@@ -313,7 +317,7 @@ def SRule.erase : SRule → ARule
   | .comment b => .comment b
   | .style sel blk => .style sel.erase blk.erase
   | .unknown t => .unknown t
-  | .media _ _ mq _ _ rules => .media (strip mq) none rules.erase
+  | .media _ _ mq _ name _ rules => .media (strip mq) (storedName (name.map (·.2.1))) rules.erase
   | .fontface _ _ blk => .fontface blk.erase
   | .page _ _ sel _ blk => .page sel.name sel.pseudo blk.eraseItems blk.eraseMargins
 def SRules.erase : SRules → List ARule
@@ -324,7 +328,7 @@ end
 def SImp.erase : SImp → ARule
   | .comment b => .comment b
   | .unknown t => .unknown t
-  | .import_ _ _ href _ mq => .import_ href.value (mq.map (fun p => strip p.1)) none
+  | .import_ _ _ href _ mq name => .import_ href.value (mq.map (fun p => strip p.1)) (storedName (name.map (·.2.1)))
 
 def SNs.erase : SNs → ARule
   | .comment b => .comment b
@@ -387,6 +391,19 @@ def SHref.tok : SHref → Tok
         | some q => quoteStr q h
         | none => h) ++ (post.map WsChar.cp ++ [0x29]))), 0⟩
 
+/-- a STRING token -/
+def strTok (q : Quote) (n : Cps) : Tok := ⟨.string, quoteStr q n, 0⟩
+
+/-- the tokens of the optional name -/
+def nameToks : SName → List Tok
+  | some (q, n, g) => strTok q n :: Gap.toks g
+  | none => []
+
+/-- the STRING token of the optional name -/
+def nameTok? : SName → Option Tok
+  | some (q, n, _) => some (strTok q n)
+  | none => none
+
 def SPageItem.toks : SPageItem → List Tok
   | .item i => i.toks
   | .margin n kw g blk =>
@@ -412,9 +429,9 @@ def SRule.toks : SRule → List Tok
   | .comment b => [commentTok b]
   | .style sel blk => sel.toks ++ lbraceTok :: (blk.toks ++ [rbraceTok])
   | .unknown t => t
-  | .media kw g1 mq g2 lead rules =>
-    atTok .mediaSym kw "media" :: (Gap.toks g1 ++ (mq ++ (Gap.toks g2 ++ lbraceTok ::
-      (WGap.toks lead ++ (rules.toks ++ [rbraceTok])))))
+  | .media kw g1 mq g2 name lead rules =>
+    atTok .mediaSym kw "media" :: (Gap.toks g1 ++ (mq ++ (Gap.toks g2 ++ (nameToks name ++ lbraceTok ::
+      (WGap.toks lead ++ (rules.toks ++ [rbraceTok]))))))
   | .fontface kw g1 blk =>
     atTok .fontFaceSym kw "font-face" :: (Gap.toks g1 ++ lbraceTok :: (blk.toks ++ [rbraceTok]))
   | .page kw g0 sel g1 blk =>
@@ -431,8 +448,8 @@ def impMqToks : Option (List Tok × Gap) → List Tok
 def SImp.toks : SImp → List Tok
   | .comment b => [commentTok b]
   | .unknown t => t
-  | .import_ kw g1 href g2 mq =>
-    atTok .importSym kw "import" :: (Gap.toks g1 ++ href.tok :: (Gap.toks g2 ++ (impMqToks mq ++ [semiTok])))
+  | .import_ kw g1 href g2 mq name =>
+    atTok .importSym kw "import" :: (Gap.toks g1 ++ href.tok :: (Gap.toks g2 ++ (impMqToks mq ++ (nameToks name ++ [semiTok]))))
 
 def nsPfxToks : Option (Cps × Gap) → List Tok
   | some (p, g) => identTok p :: Gap.toks g
@@ -497,7 +514,7 @@ def projAt (O : Oracle) (M : List Cps) (k : Kind) (toks : List Tok) : ARule :=
   | .charset => .charset ((charsetEncoding toks).getD [])
   | .import_ =>
     match importRule O toks with
-    | some i => .import_ i.href (i.media.map clean) i.name
+    | some i => .import_ i.href (i.media.map clean) (storedName i.name)
     | none => .other .import_
   | .fontface => .fontface (projItems ((fontFaceRule O toks).getD []))
   | .page =>
@@ -515,7 +532,7 @@ def projRule (O : Oracle) (M : List Cps) : Rule → ARule
   | .at_ k toks => projAt O M k toks
   | .ns p u _ => .namespace_ p u
   | .media none _ => .media [] none []
-  | .media (some (mq, name)) rules => .media (clean mq) (name.map (fun t => stringValue t.val)) (projRules O M rules)
+  | .media (some (mq, name)) rules => .media (clean mq) (storedName (name.map (fun t => stringValue t.val))) (projRules O M rules)
 def projRules (O : Oracle) (M : List Cps) : List Rule → List ARule
   | [] => []
   | r :: rs => projRule O M r :: projRules O M rs
